@@ -275,31 +275,29 @@ def run_check(spec, res, workdir):
     with Lock("lake"):
         ok, _ = regen_facts(log)
         res.oblige("factgen:extract", ok, "go/ast fact extraction from the working tree")
-        targets = ["driver"] + spec.get("modules", []) + (["Sheens.Props.FactsOK"] if spec.get("facts") else [])
+        targets = ["driver"] + spec.get("modules", [])
         ok, out = lake_build(targets, log)
         if not ok:
-            # find which modules failed
             failed = re.findall(r"^- (\S+)", out, flags=re.M)
             log.append("lake build failed: %s\n%s" % (failed, out[-3000:]))
-            # retry individually so that unaffected obligations still count
-            okd, _ = lake_build(["driver"], log)
+            okd, outd = lake_build(["driver"], log)
             if not okd:
-                res.oblige("lean:driver-builds", False, out[-500:])
+                res.oblige("lean:driver-builds", False, outd[-500:])
             for m in spec.get("modules", []):
                 okm, outm = lake_build([m], log)
                 res.oblige("lean:module:" + m, okm, outm[-800:] if not okm else "")
-            if spec.get("facts"):
-                okf, outf = lake_build(["Sheens.Props.FactsOK"], log)
-                bad = set(re.findall(r"FactsOK\.lean:(\d+)", outf)) if not okf else set()
-                failing_names = facts_failing(outf) if not okf else set()
-                for th in spec["facts"]:
-                    res.oblige("facts:" + th, okf or (th not in failing_names and bool(failing_names)),
-                               "regenerated facts no longer satisfy this theorem" if th in failing_names else "")
         else:
             for m in spec.get("modules", []):
                 res.oblige("lean:module:" + m, True)
-            for th in spec.get("facts", []):
-                res.oblige("facts:" + th, True)
+        if spec.get("facts"):
+            okf, outf = lake_build(["Sheens.Props.FactsOK"], log)
+            failing_names = facts_failing(outf) if not okf else set()
+            if not okf and not failing_names:
+                failing_names = set(spec["facts"])  # the file does not even elaborate
+                log.append("FactsOK failed without attributable theorem: " + outf[-1500:])
+            for th in spec["facts"]:
+                res.oblige("facts:" + th, th not in failing_names,
+                           "the facts regenerated from the working tree no longer satisfy this theorem" if th in failing_names else "")
         hits = forbidden_tokens()
         res.oblige("lean:no-proof-escapes", not hits, "; ".join(hits[:5]))
         theorems = spec.get("theorems", [])
